@@ -84,6 +84,12 @@ theorem fact_create_checks_subject_inside_transaction :
 theorem fact_change_records_saved_inside_first_transaction :
     Facts.C13.changeLogSavedInsideFirstTransaction = true ∧ Facts.C13.savesOutsideTransaction = [] := by decide
 
+/-- did_document.go `CreateOrUpdate` has ONE way out after the lookup of the latest version: `s.tx.Create(&doc)` and
+    `return &doc, err` — no branch returns an existing version (no "nothing changed, skip the insert") -/
+theorem fact_create_or_update_always_inserts :
+    Facts.C13.createOrUpdateReturns = ["if err != nil && !errors.Is(): nil, err", "&doc, err"] ∧
+    Facts.C13.createOrUpdateInserts = ["s.tx.Create(&doc)"] := by decide
+
 /-- the configuration the source describes today -/
 def cfgNow (methods : List Method) : Cfg :=
   { methods := methods
@@ -247,6 +253,27 @@ theorem versions_without_change_records_are_never_rolled_back :
       let w2 := (sweep cfg id (tick 61 lost)).1
       w2.dids.map (fun r => r.vers.map (·.c.svcs)) = [[["A"], []], [["A"], []]] ∧
       (pubLatest w2.pub 0).map (·.svcs) = some [] ∧ logCount w2 = 0 := ⟨_, _, rfl, by decide⟩
+
+/-- **a change record names a version written by its own transaction, never an older one**: `CreateOrUpdate` always inserts a
+    new row (regenerated fact `fact_create_or_update_always_inserts`), so what the clean-up transaction or the sweep deletes
+    for an abandoned operation is never a version that existed before — even when the new version's content equals the
+    latest one (deactivating twice, deleting a missing service, …) -/
+theorem change_records_name_new_versions (hfix : Fixed cfg) (hms : cfg.methods.Nodup) {w w1 : World} (h : Reach cfg w)
+    {o : Op} {chs : List Change} (ht : tx1 cfg w o = .ok (w1, chs)) :
+    ∀ ch ∈ chs, ∀ r ∈ w.dids, ∀ v ∈ r.vers, v.row ≠ ch.row := by
+  intro ch hch r hr v hv he
+  have h1 := tx1_rows_fresh ht ch hch
+  have h2 := (reach_inv hfix hms h).rowLt r hr v hv
+  omega
+
+/-- non-vacuity and the repeat case: the second deactivation writes version 2 (content = version 1), did:nuts refuses it,
+    the clean-up removes version 2 only: versions stay `[1, 0]` on both DIDs, both stay deactivated -/
+example :
+    let cfg := cfgNow [.nuts, .web]
+    let w0 := (stepOp cfg {} (.create "s") [.nuts, .web] .none).1
+    let w1 := (stepOp cfg w0 (.deactivate "s") [.nuts, .web] .none).1
+    let r := stepOp cfg w1 (.deactivate "s") [.web, .nuts] .none
+    r.2 = "err:deactivated" ∧ r.1.dids = w1.dids ∧ w1.dids.map (fun d => d.vers.map (·.n)) = [[1, 0], [1, 0]] := by decide
 
 /-- `Create` = existence check + write in ONE atomic step. Every interleaving of requests whose steps are atomic is a
     sequence of `stepOp`s, so `subject_unique` (over `Reach`) covers any number of concurrent Creates of one name:
